@@ -31,10 +31,20 @@ def gen_type(rng, avail, depth=2, allow_any=True):
         return ('seq', rng.choice(['list', 'list', 'sequence', 'mutablesequence']),
                 gen_type(rng, avail, depth - 1, allow_any))
     if r < 0.62:
-        return ('map', rng.choice(['dict', 'dict', 'mapping', 'mutablemapping']), ('str',),
+        strlike = getattr(avail, 'strlike', [])
+        key = ('cls', rng.choice(strlike)) if strlike and rng.random() < 0.35 else ('str',)
+        return ('map', rng.choice(['dict', 'dict', 'mapping', 'mutablemapping']), key,
                 gen_type(rng, avail, depth - 1, allow_any))
     if r < 0.78:
         return CM.t_opt(gen_type(rng, avail, depth - 1, False))
+    if r < 0.82:
+        # the "one or many" idiom
+        t = gen_type(rng, avail, 0, False)
+        if t[0] not in ('null', 'any', 'union'):
+            many = ('seq', 'list', t) if rng.random() < 0.7 else ('map', 'dict', ('str',), t)
+            ms = [t, many]
+            rng.shuffle(ms)
+            return ('union', ms)
     if r < 0.9:
         n = rng.randint(2, 3)
         ms = []
@@ -65,10 +75,16 @@ def gen_default(rng, t):
     return None
 
 
+class NameList(list):
+    def __init__(self, *a):
+        list.__init__(self, *a)
+        self.strlike = []
+
+
 def gen_model(rng, features=None):
     """returns (spec list, list of candidate document types)"""
     spec = []
-    avail = []          # registered, usable class names
+    avail = NameList()  # registered, usable class names
     names = iter(['Alpha', 'Beta', 'Gamma', 'Delta', 'Eps', 'Zeta', 'Eta', 'Theta'])
     nclasses = rng.randint(1, 5)
     plain = []
@@ -83,8 +99,12 @@ def gen_model(rng, features=None):
             inherited += [copy.deepcopy(p) for p in by_name[b].get('all_params', [])]
         own = []
         k = rng.randint(0, 3) if nparams is None else nparams
+        if nparams is None and rng.random() < 0.08:
+            k = rng.randint(8, 10)      # a class with many attributes (other diagnostics apply)
         for _ in range(k):
             cand = [a for a in ATTRS if a not in used]
+            if not cand:
+                break
             a = rng.choice(cand)
             used.add(a)
             t = gen_type(rng, avail, 2)
@@ -118,7 +138,10 @@ def gen_model(rng, features=None):
             c['sweeten'] = gen_sweeten(rng, c)
         if rng.random() < 0.12 and params:
             p = rng.choice(params)
-            if p['type'] in (('int',), ('str',), ('bool',)):
+            trigger = {'int': 13, 'str': 'forbidden', 'bool': True}.get(p['type'][0]) if p['type'] else None
+            dflt = p.get('default', CM.NODEFAULT)
+            # (the model applies the refusal to passed arguments; a default that triggers it is Python's business)
+            if p['type'] in (('int',), ('str',), ('bool',)) and not (dflt == trigger and type(dflt) is type(trigger)):
                 c['init_raises'] = (p['name'], {'int': 13, 'str': 'forbidden', 'bool': True}[p['type'][0]])
                 c['init_raise_style'] = rng.choice(['msg', 'bare', 'assert', 'keyerror', 'custom'])
         return c
@@ -170,6 +193,8 @@ def gen_model(rng, features=None):
         by_name[name] = c
         if c['kind'] == 'plain':
             plain.append(name)
+        if c['kind'] in ('str', 'userstring', 'yatimlstring'):
+            avail.strlike.append(name)
         avail.append(name)
     # unregistered intermediate (rare): skipped here; added by dedicated generators
     # document types
